@@ -7,3 +7,5 @@ import Refine.Model.CellTopo
 import Refine.Model.Geom
 import Refine.Lemmas.ScalarReal
 import Refine.Props.C15
+import Refine.Lemmas.PartLemmas
+import Refine.Props.C07
